@@ -9,9 +9,18 @@ chromosomes absent from the FASTA, FASTA chromosomes without annotation, exon-on
                    on the pinned tree the real constructor raises KeyError for an exon-less transcript -> disagreement)
   extended_run     task list = DatasetProcessor.get_chr_list() over the FASTA keys; per task create_extended_storage + dump on a
                    fresh real printer == the model's block of that chromosome
+  exon_check       the exon block of gtf2db.check_gtf_duplicates (Model/GtfCheck.lean, theorems Props/C03Check.lean): gtf_correct,
+                   the exon lines of the corrected annotation, the warning per line - on GTF files with duplicated exon lines,
+                   overlapping / nested / touching exons, equal coordinates in different transcripts, any line order
 oracle: (a) in-process: model construction's joiner on the GeneInfo of every generated annotation must not abort;
-(b) real pipeline on gen/refsets.py scenarios: exonless, ann_only_chrom, fasta_only_chrom, gene_two_chroms.
+(a2) in-process: an annotation the REAL input check accepts is loaded (real gffutils database, real create_extended_storage
++ GFFPrinter) and every transcript written must have sorted, non-overlapping exons; a rejected one must come with a corrected
+annotation without repeated exon lines;
+(b) real pipeline on gen/refsets.py scenarios: exonless, ann_only_chrom, fasta_only_chrom, gene_two_chroms, dup_exon_line,
+overlap_exons.
 """
+import io
+import logging
 import os
 import random
 import re
@@ -228,12 +237,131 @@ def run_case(ctx, rng, scratch):
                         "model_blocks": [[c, len(ls)] for c, ls in mo]})
 
 
+class _LogCapture:
+    """the WARNING lines the input check logs (the harness silences the IsoQuant logger: C03.py sets it to CRITICAL)"""
+
+    def __enter__(self):
+        self.lg = logging.getLogger("IsoQuant")
+        self.level = self.lg.level
+        self.propagate = self.lg.propagate
+        self.buf = io.StringIO()
+        self.h = logging.StreamHandler(self.buf)
+        self.h.setLevel(logging.WARNING)
+        self.lg.addHandler(self.h)
+        self.lg.setLevel(logging.WARNING)
+        self.lg.propagate = False
+        return self
+
+    def __exit__(self, *a):
+        self.lg.removeHandler(self.h)
+        self.lg.setLevel(self.level)
+        self.lg.propagate = self.propagate
+
+    def lines(self):
+        return [l for l in self.buf.getvalue().split("\n") if l]
+
+
+def real_input_check(gtf_text, scratch, name="chk.gtf"):
+    """-> dict(correct, corrected (text or None), warnings) of the real gtf2db.check_gtf_duplicates"""
+    vlib.repo_on_path()
+    import src.gtf2db as G2
+    _n[0] += 1
+    p = os.path.join(scratch, "%d_%s" % (_n[0], name))
+    with open(p, "w") as f:
+        f.write(gtf_text)
+    try:
+        with _LogCapture() as cap:
+            ok, corrected, out_name, meta = G2.check_gtf_duplicates(p)
+        return {"correct": bool(ok), "corrected": corrected, "warnings": cap.lines(), "meta": meta}
+    finally:
+        os.remove(p)
+
+
+_DUP_RE = re.compile(r"Duplicated exon (-?\d+)-(-?\d+) of transcript (\S+) on line (\d+)")
+_OVL_RE = re.compile(r"Exon (-?\d+)-(-?\d+) of transcript (\S+) overlaps another exon of this transcript, line (\d+)")
+
+
+def exon_lines_of_text(text):
+    res = []
+    for l in (text or "").split("\n"):
+        p = l.split("\t")
+        if len(p) >= 9 and p[2] == "exon":
+            m = re.search(r'transcript_id "T(\d+)', p[8])
+            res.append([int(p[0][1:]), int(m.group(1)), [int(p[3]), int(p[4])]])
+    return res
+
+
+def exon_check_case(ctx, case, scratch, tag):
+    text, where = R.exon_line_gtf(case)
+    got = real_input_check(text, scratch)
+    verd = {}
+    for w in got["warnings"]:
+        m = _DUP_RE.search(w)
+        if m:
+            verd[int(m.group(4))] = "dup"
+        m = _OVL_RE.search(w)
+        if m:
+            verd[int(m.group(4))] = "overlap"
+    other = [w for w in got["warnings"] if not (_DUP_RE.search(w) or _OVL_RE.search(w))]
+    real = {"correct": got["correct"], "kept": exon_lines_of_text(got["corrected"]), "verdicts": [verd.get(n, "ok") for n in where]}
+    lines = [{"seq": s_, "tid": t, "iv": [a, b]} for (s_, t, a, b) in case["lines"]]
+    mo = ctx.driver.run([vlib.req("C03R.exon_check", lines=lines)])[0]
+    ctx.evaluations += 1
+    ctx.count("op:exon_check")
+    ctx.count("exon_check:%s" % tag)
+    if other:
+        # a warning of another part of the check (not expected for these files): the comparison of the flag would be moot
+        ctx.count("exon_check:other_warning")
+        return
+    model = {"correct": mo["correct"], "kept": mo["kept"], "verdicts": mo["verdicts"]}
+    for v in set(model["verdicts"]):
+        ctx.count("exon_check_model:%s" % v)
+    if real == {"correct": mo["orig_correct"], "kept": mo["orig_kept"], "verdicts": ["ok"] * len(lines)} and real != model:
+        ctx.count("exon_check:real_equals_pinned_model")
+    # the same lines as a GFF3 file (exon records name their transcript by Parent): flag and warnings (no corrected copy)
+    t3, where3 = R.exon_line_gff3(case)
+    if t3 is not None and lines:
+        got3 = real_input_check(t3, scratch, name="chk.gff3")
+        v3 = {}
+        for w in got3["warnings"]:
+            m = _DUP_RE.search(w) or _OVL_RE.search(w)
+            if m:
+                v3[int(m.group(4))] = "dup" if _DUP_RE.search(w) else "overlap"
+        real3 = {"correct": got3["correct"], "verdicts": [v3.get(n, "ok") for n in where3]}
+        ctx.evaluations += 1
+        ctx.count("op:exon_check_gff3")
+        if real3 != {"correct": model["correct"], "verdicts": model["verdicts"]}:
+            ctx.disagree("exon_check_gff3", {"case": case, "gtf": t3, "gff3": True}, {"correct": model["correct"], "verdicts": model["verdicts"]}, real3)
+    if real != model:
+        ctx.disagree("exon_check", {"case": case, "gtf": text}, model, real)
+    elif lines:
+        ctx.mark_nontrivial(["exon_check", case["lines"]])
+        if not model["correct"]:
+            ctx.count("exon_check:rejected_agree")
+        if len(ctx.samples) < 8 and not model["correct"] and len(lines) < 7:
+            ctx.sample({"op": "exon_check", "input": case["lines"], "model": model})
+
+
+WITNESS_EXON_LINES = [
+    {"lines": [(1, 1, 2001, 2300), (1, 1, 2601, 3000), (1, 1, 2601, 3000), (1, 1, 3501, 3800)], "records": True},   # Props/C03Check dupLines
+    {"lines": [(1, 1, 2001, 2300), (1, 1, 2250, 3000), (1, 1, 3501, 3800)], "records": True},                       # ovlLines
+    {"lines": [(1, 1, 2001, 2300), (1, 1, 2301, 3000)], "records": True},                                             # touching: accepted
+    {"lines": [(1, 1, 10, 20), (2, 1, 10, 20), (1, 2, 10, 20)], "records": False},                                   # same coordinates, other keys
+    {"lines": [(1, 1, 30, 40), (1, 1, 10, 35)], "records": False},                                                   # overlap met in descending order
+    {"lines": [], "records": False},
+]
+
+
 def correspondence(ctx):
     rng = ctx.rng
     scratch = vlib.scratch_dir("isoverif_c03ref_")
     try:
         for _ in range(60 if ctx.tier == "quick" else 600):
             run_case(ctx, rng, scratch)
+        for c in WITNESS_EXON_LINES:
+            exon_check_case(ctx, c, scratch, "witness")
+        for _ in range(150 if ctx.tier == "quick" else 2500):
+            exon_check_case(ctx, R.exon_line_case(rng), scratch, "random")
     finally:
         shutil.rmtree(scratch, ignore_errors=True)
 
@@ -266,6 +394,49 @@ def oracle_joiner_on_annotation(gtf_text, cname, inferred):
     return None
 
 
+def oracle_checked_annotation(gtf_text, inferred, gff3=False):
+    """C03 on the reference path, in-process, for ANY annotation text: if the real input check accepts the file, the real
+    database + create_extended_storage + GFFPrinter must write only transcripts with sorted, non-overlapping exons; if it
+    rejects the file, the corrected annotation it offers must not repeat an exon line.  -> list of (kind, detail)"""
+    import gffutils
+    from props import C03
+    TP, GI, GB, IDP, DP = _mods()
+    fails = []
+    d = vlib.scratch_dir("isoverif_c03refc_")
+    try:
+        got = real_input_check(gtf_text, d, name="chk.gff3" if gff3 else "chk.gtf")
+        if not got["correct"]:
+            if got["corrected"]:
+                again = real_input_check(got["corrected"], d)
+                if any(_DUP_RE.search(w) for w in again["warnings"]):
+                    fails.append(("corrected_annotation_repeats_exon", "; ".join(again["warnings"][:2])))
+            return fails
+        gtf = os.path.join(d, "a.gff3" if gff3 else "a.gtf")
+        with open(gtf, "w") as f:
+            f.write(gtf_text)
+        try:
+            db = gffutils.create_db(gtf, ":memory:", force=True, keep_order=True, merge_strategy="error", sort_attribute_values=True,
+                                    disable_infer_transcripts=not inferred, disable_infer_genes=not inferred)
+        except Exception as ex:      # gffutils refuses the file (e.g. one transcript id on two sequences): no run, nothing to check
+            return [("__skipped__", type(ex).__name__)]
+        for c in sorted(set(db.seqids())):
+            _n[0] += 1
+            printer = TP.GFFPrinter(d, "c%d" % _n[0], IDP.FeatureIdStorage(IDP.SimpleIDDistributor()), output_r2t=False)
+            try:
+                all_models, gene_info = TP.create_extended_storage(db, c, "A" * 10, [])
+                printer.dump(gene_info, all_models)
+            except (AssertionError, IndexError, KeyError) as ex:
+                fails.append(("extended_annotation_aborts", "%s on %s" % (type(ex).__name__, c)))
+            printer.out_gff.close()
+            recs = P.parse_gtf(printer.model_fname)
+            os.remove(printer.model_fname)
+            fails += [(k, det) for k, det in C03.validate_records(recs, None, "extended(in-process)")
+                      if k in ("exons_overlap", "exons_unsorted", "exon_coordinates", "transcript_record_span")]
+        return fails
+    finally:
+        shutil.rmtree(d, ignore_errors=True)
+
+
 def scenario_view(sc):
     """the dataset as the C03 validator reads it: reference genes restricted to what CAN be in the output annotation
     (gene on a chromosome of the FASTA, transcripts with exon records)"""
@@ -295,6 +466,27 @@ def run_scenario(spec):
             # the input is rejected loudly, naming the gene id: nothing is printed, nothing to check
             info["rejected"] = True
             return [], info
+        if sc.bad_exon_tx and rc != 0 and any(sc.bad_exon_tx[0] in l and "xon" in l for l in warns):
+            # the annotation is rejected loudly, naming the transcript whose exon records are malformed
+            info["rejected"] = True
+            if sc.bad_exon_tx[1] != "dup":
+                return [], info
+            # a repeated line is something the check can correct: the corrected annotation it wrote must run, and give TU with
+            # the first copy of every exon
+            corr = [os.path.join(dp, fn) for dp, _, fns in os.walk(os.path.join(d, "out")) for fn in fns if ".corrected." in fn]
+            if not corr:
+                return [("corrected_annotation_missing", "rc=%s, no *.corrected.* file under the output folder" % rc)], info
+            kept = os.path.join(d, "in", os.path.basename(corr[0]))
+            shutil.copy(corr[0], kept)
+            paths = dict(paths, gtf=kept)
+            sc.exon_lines = {}
+            args = P.std_args(paths, threads=spec.get("threads", 2), genedb=True)
+            if not sc.complete_genedb:
+                args = [a for a in args if a != "--complete_genedb"]
+            shutil.rmtree(os.path.join(d, "out"))
+            rc, log = P.run_isoquant(os.path.join(d, "out"), args)
+            warns = warning_lines(log)
+            info["rc_corrected"] = rc
         if rc != 0:
             tb = [l for l in log.split("\n") if l.startswith(("KeyError", "IndexError", "ValueError", "AssertionError")) or "Error:" in l]
             return [("pipeline_crash", "scenario %s rc=%s %s" % (sc.name, rc, "; ".join(tb[-2:]) or log[-300:]))], info
@@ -352,7 +544,7 @@ def run_scenario(spec):
         shutil.rmtree(d, ignore_errors=True)
 
 
-PIPELINE_SCENARIOS = ["exonless", "ann_only_chrom", "fasta_only_chrom", "gene_two_chroms"]
+PIPELINE_SCENARIOS = ["exonless", "ann_only_chrom", "fasta_only_chrom", "gene_two_chroms", "dup_exon_line", "overlap_exons"]
 # failure kinds that are a PROPOSED known finding (docs/C03.md §10): reported as failures only once known_findings.json lists them
 PROPOSED_FINDING_KINDS = set()
 
@@ -385,6 +577,31 @@ def oracle(ctx, disagreements, broken):
                 C03._fail(ctx, "exonless_transcript_aborts_model_construction",
                           {"level": "refjoin", "gtf": gtf, "chr": c, "inferred": False}, r)
     ctx.extra["refjoin_annotations"] = n
+    # 2b. in-process: annotations with repeated / overlapping exon lines through the real input check and the real reference path
+    seeds = [dd["input"]["case"] for dd in disagreements if dd["op"] in ("exon_check", "exon_check_gff3")][:20]
+    nchk = nacc = nskip = 0
+    for k in range(len(seeds) + len(WITNESS_EXON_LINES) + (70 if quick else 1200)):
+        case = seeds[k] if k < len(seeds) else (WITNESS_EXON_LINES[k - len(seeds)] if k < len(seeds) + len(WITNESS_EXON_LINES)
+                                                else R.exon_line_case(rng))
+        if len({t: s_ for (s_, t, a, b) in case["lines"]}) != len({(s_, t) for (s_, t, a, b) in case["lines"]}):
+            continue                  # one transcript id on two sequences: another malformation (gffutils merges / refuses it)
+        if any(a > b for (_, _, a, b) in case["lines"]) or not case["lines"]:
+            continue
+        as_gff3 = rng.random() < 0.3
+        text, _ = R.exon_line_gff3(case, strand=rng.choice("+-")) if as_gff3 else R.exon_line_gtf(case, strand=rng.choice("+-"))
+        fails = oracle_checked_annotation(text, not case["records"] and not as_gff3, gff3=as_gff3)
+        nchk += 1
+        if fails and fails[0][0] == "__skipped__":
+            nskip += 1
+            continue
+        if not fails:
+            nacc += 1
+        done = set()
+        for kind, det in fails:
+            if kind not in done:
+                done.add(kind)
+                C03._fail(ctx, kind, {"level": "refcheck", "gtf": text, "inferred": not case["records"] and not as_gff3, "gff3": as_gff3}, det)
+    ctx.extra["refcheck_annotations"] = {"checked": nchk, "no_failure": nacc, "refused_by_gffutils": nskip}
     # 3. the real pipeline
     listed = {e.get("kind") for e in vlib.load_known_findings().get("findings", []) if e.get("property") == "C03"}
     runs = []
@@ -413,6 +630,8 @@ def replay(ctx, failure):
     inp = failure["input"]
     if inp.get("level") == "refjoin":
         return oracle_joiner_on_annotation(inp["gtf"], inp["chr"], inp["inferred"]) is not None
+    if inp.get("level") == "refcheck":
+        return any(k == failure["kind"] for k, _ in oracle_checked_annotation(inp["gtf"], inp["inferred"], inp.get("gff3", False)))
     if inp.get("level") == "refpipeline":
         fails, _ = run_scenario(inp["spec"])
         return any(k == failure["kind"] for k, _ in fails)
